@@ -129,8 +129,21 @@ def exits(fn: ast.AST, resolve_locals: bool = True, _record: Optional[list] = No
                     conds = e2
                 elif e2 is None:
                     conds = e1
-                # both fall through: the branch adds nothing that holds on every path
+                else:
+                    # both fall through: what holds afterwards is the disjunction of what each
+                    # branch established (kept as ONE conjunct `(a and b) or (c)`)
+                    base_ids = {id(c) for c in conds}
+                    x1 = [c for c in e1 if id(c) not in base_ids]
+                    x2 = [c for c in e2 if id(c) not in base_ids]
+                    if x1 and x2:
+                        def conj(xs):
+                            return xs[0] if len(xs) == 1 else ast.BoolOp(op=ast.And(), values=list(xs))
+
+                        conds = conds + [ast.BoolOp(op=ast.Or(), values=[conj(x1), conj(x2)])]
                 continue
+            if isinstance(st, (ast.Continue, ast.Break)):
+                # leaves this iteration: what follows in the block runs only if we did not get here
+                return None
             if isinstance(st, (ast.For, ast.AsyncFor, ast.While)):
                 block(st.body, conds)
                 block(st.orelse, conds)
